@@ -61,6 +61,14 @@ def values_for(rng, bs, n_extra):
         vals.add(rng.randint(-(1 << bs), 1 << bs))
         vals.add(rng.randint(-(1 << 70), 1 << 70))
     vals.add(rng.choice((1, -1)) * (1 << rng.choice((31, 32, 63, 64))) + rng.randint(-1, 1))
+    # aliases: out-of-range values congruent to an in-range one modulo 2^32 / 2^64 / 2^bs
+    # (a range check on a truncated or masked copy accepts them)
+    inr = [0, 1, (1 << (bs - 1)) - 1 if bs > 1 else 0]
+    for k in (bs, 32, 63, 64):
+        if k >= bs:
+            x = rng.choice(inr)
+            vals.add(x + (1 << k))
+            vals.add(x - (1 << k))
     return sorted(vals)
 
 
